@@ -29,11 +29,30 @@ PAIRS = [
     ('role:x and (role:o or role:n)', 'role:o or role:n'),
     ('not role:o and role:x', 'not role:o'),
     ('role:o', 'role:o and role:x'),
+    ('role:n', 'role:o or role:x'),
+    ('role:n', '!'),
 ]
-QUICK_PAIRS = [0, 1, 2, 3, 4, 9, 10, 13]
+QUICK_PAIRS = [0, 1, 2, 3, 4, 9, 10, 13, 14, 15]
 ROLES = ['n', 'o', 'x', 'vn', 'vo', 'n2', 'n3']
 OLD_OVERRIDES = ['absent', 'arbitrary', 'alias-first', 'alias-own',
-                 'alias-spaced']
+                 'alias-spaced',
+                 # overrides that RESEMBLE the deprecated default without
+                 # being textually equal to it: they govern like any other
+                 'other-connective', 'opposite-constant', 'respelled']
+
+
+def _resembling(kind, old_cs):
+    if kind == 'other-connective':
+        if ' and ' in old_cs and ' or ' not in old_cs and '(' not in old_cs:
+            return old_cs.replace(' and ', ' or ')
+        if ' or ' in old_cs and ' and ' not in old_cs and '(' not in old_cs:
+            return old_cs.replace(' or ', ' and ')
+        return None
+    if kind == 'opposite-constant':
+        return {'': '!', '@': '!', '!': '@'}.get(old_cs)
+    if kind == 'respelled':
+        return '( %s )' % old_cs if old_cs else None
+    return None
 
 
 def _rolevar(ctx):
@@ -88,6 +107,10 @@ def run_table(ctx, pair, nshare, renamed, keeper=False):
         old_text = 'rule:%s' % news[-1]
     elif old_ov == 'alias-spaced':
         old_text = ' rule:%s ' % news[0]
+    elif old_ov in ('other-connective', 'opposite-constant', 'respelled'):
+        old_text = _resembling(str(old_ov), old_cs)
+        if old_text is None:
+            return
     if old_text is not None:
         file_rules['old'] = old_text
     env = common.PolicyEnv()
